@@ -28,11 +28,11 @@ const (
 )
 
 var knownOpen = map[string]bool{
-	sigNoHTTP:            true,
-	sigResourceBackend:   true,
-	sigMseQuery:          true,
-	sigMseHeaderControl:  true,
-	sigMseNilAnnotations: true,
+	sigNoHTTP:            false, // repaired by a "fix:" commit in /repo, see /verif/known_findings.json
+	sigResourceBackend:   false, // repaired by a "fix:" commit in /repo, see /verif/known_findings.json
+	sigMseQuery:          false, // repaired by a "fix:" commit in /repo, see /verif/known_findings.json
+	sigMseHeaderControl:  false, // repaired by a "fix:" commit in /repo, see /verif/known_findings.json
+	sigMseNilAnnotations: false, // repaired by a "fix:" commit in /repo, see /verif/known_findings.json
 }
 
 // P14_NO_EXCLUDE=all or a comma-separated list of signatures switches exclusions off for one run
